@@ -123,6 +123,7 @@ fn check_replays<KB: KeyBundle + Clone>(cx: &mut Cx, a: &Party<KB>, b: &Party<KB
                     format!("two-party-panics/replay/{kind}"),
                     format!("[{}] then replaying message #{i} of {} to {}: panic {p}", path.iter().map(act_name).collect::<Vec<_>>().join(" "), if who == 0 { "B" } else { "A" }, if who == 0 { "A" } else { "B" }),
                     rp,
+                    path.len() as u64,
                 );
             }
             Ok(Err(e)) => cx.acc.outcome(&("replay-rejected", kind, err_class(&e))),
@@ -144,6 +145,7 @@ fn check_replays<KB: KeyBundle + Clone>(cx: &mut Cx, a: &Party<KB>, b: &Party<KB
                             String::from_utf8_lossy(&got)
                         ),
                         rp,
+                        path.len() as u64,
                     );
                 }
             }
@@ -198,6 +200,7 @@ fn dfs<KB: KeyBundle + Clone>(cx: &mut Cx, a: &Party<KB>, b: &Party<KB>, path: &
                                 format!("send-failed/{}", err_class(&e)),
                                 format!("session {}: [{}]: the last send failed: {e}", cx.session, path.iter().map(act_name).collect::<Vec<_>>().join(" ")),
                                 rp,
+                                path.len() as u64,
                             );
                         }
                         ok = false;
@@ -205,7 +208,7 @@ fn dfs<KB: KeyBundle + Clone>(cx: &mut Cx, a: &Party<KB>, b: &Party<KB>, path: &
                     Err(p) => {
                         cx.acc.evals += 1;
                         let rp = path_json(cx.session, path);
-                        cx.acc.violation("two-party-panics/send", format!("session {}: [{}]: panic {p}", cx.session, path.iter().map(act_name).collect::<Vec<_>>().join(" ")), rp);
+                        cx.acc.violation("two-party-panics/send", format!("session {}: [{}]: panic {p}", cx.session, path.iter().map(act_name).collect::<Vec<_>>().join(" ")), rp, path.len() as u64);
                         ok = false;
                     }
                 }
@@ -236,6 +239,7 @@ fn dfs<KB: KeyBundle + Clone>(cx: &mut Cx, a: &Party<KB>, b: &Party<KB>, path: &
                                     format!("wrong-plaintext/{kind}"),
                                     format!("session {}: [{}]: message #{i} decrypted to {:?}, sent was {:?}", cx.session, path.iter().map(act_name).collect::<Vec<_>>().join(" "), String::from_utf8_lossy(&got), String::from_utf8_lossy(plain)),
                                     rp,
+                                    path.len() as u64,
                                 );
                                 ok = false;
                             } else {
@@ -256,12 +260,13 @@ fn dfs<KB: KeyBundle + Clone>(cx: &mut Cx, a: &Party<KB>, b: &Party<KB>, path: &
                                     if who == 0 { "B" } else { "A" }
                                 ),
                                 rp,
+                                path.len() as u64,
                             );
                             ok = false;
                         }
                         Err(p) => {
                             let rp = path_json(cx.session, path);
-                            cx.acc.violation("two-party-panics/receive", format!("session {}: [{}]: panic {p}", cx.session, path.iter().map(act_name).collect::<Vec<_>>().join(" ")), rp);
+                            cx.acc.violation("two-party-panics/receive", format!("session {}: [{}]: panic {p}", cx.session, path.iter().map(act_name).collect::<Vec<_>>().join(" ")), rp, path.len() as u64);
                             ok = false;
                         }
                     }
@@ -364,15 +369,16 @@ pub fn run(mut rep: Report) -> i32 {
     // The split re-executes the nodes of the shared prefix levels in every task that shares them;
     // evaluations therefore count executed actions (re-executions included), states count
     // distinct action sequences.
-    let mut extra = vec![];
+    let mut accs = vec![];
     let mut per_session: std::collections::BTreeMap<&'static str, (u64, u64, u64)> = Default::default();
     for (t, acc, info) in results {
         let e = per_session.entry(t.session).or_default();
         e.0 += acc.evals;
         e.1 += acc.transitions;
         e.2 += info;
-        acc.merge_into(&mut rep, &mut extra);
+        accs.push(acc);
     }
+    crate::par::merge_all(&mut rep, accs);
     for (s, (e, t, info)) in &per_session {
         rep.part(json!({"session": s, "actions_executed": e, "actions_and_replays": t, "replays_accepted(informational only)": info}));
     }
